@@ -13,13 +13,14 @@ refill on demand, not an assumption.
      end-of-stream terminators, gaps of comments after '...', ASCII and multi-byte fillers, text / UTF-8 / UTF-16 streams,
      one malformed document per stream at most) under seeded read-size schedules through yaml.scan / parse / compose_all /
      load_all of both back-ends over instrumented streams; Block is the observed read(n) argument; the records
-     [k, requested when delivered, end_k, block, yield/raise order, disposal] are judged by TLC (Trace_Lazy.tla).
+     [k, requested when delivered, end_k, block, yield/raise order, disposal, what survives of loader and stream once an
+     abandoned generator is dropped - with the cycle collector disabled] are judged by TLC (Trace_Lazy.tla).
 """
 import gc, os, random, threading, time, weakref, multiprocessing as mp
 from .. import tlc, trace
 from ..common import Verdict, use_repo, SEED
 
-ACTIONS = ['DetEnc', 'Refill', 'ScanStale', 'ScanReady', 'Skip', 'FetchEnd', 'FetchMarker', 'FetchTok', 'ParseDocStart0',
+ACTIONS = ['Unwind', 'DetEnc', 'Refill', 'ScanStale', 'ScanReady', 'Skip', 'FetchEnd', 'FetchMarker', 'FetchTok', 'ParseDocStart0',
            'ParseDocStart', 'ParseContent', 'ParseDocEnd', 'ApiStep', 'ApiNext', 'Abandon']
 ALLMODES = '{"scan", "parse", "load"}'
 
@@ -33,7 +34,7 @@ def design_configs(tier):
             ('b8', dict(base, Block=8, TermLen=3, MaxTail=3, MaxKey=6, MaxSize=9, MaxGap=17, Modes='{"load", "scan"}'))]
 
 
-NEGATIVE = [('eager', 'H_Order'), ('depeek', 'H_Order'), ('greedy', 'H_ReaderOrder')]
+NEGATIVE = [('eager', 'H_Order'), ('depeek', 'H_Order'), ('greedy', 'H_ReaderOrder'), ('shadow', 'H_Release')]
 
 
 def run_all(jobs, workers, concurrent):
@@ -207,7 +208,11 @@ def to_units(text, ends, bad, form):
 
 
 # ------------------------------------------------------------------------------------------------ one observed iteration
-def iterate(yaml, api, be, data, rule, seed, abandon_after):
+def iterate(yaml, api, be, data, rule, seed, abandon):
+    """abandon: None | ('doc', k) after the k-th delivered document | ('item', j) after the j-th yielded item.
+    Release is observed by its effect: with the cyclic garbage collector disabled, weak references to the loader and to
+    the stream must be dead as soon as the generator has been closed and dropped (reference counting frees what no cycle
+    holds)."""
     base = yaml.SafeLoader if be == 'py' else yaml.CSafeLoader
     seen = {'disposals': 0, 'refs': []}
 
@@ -219,45 +224,66 @@ def iterate(yaml, api, be, data, rule, seed, abandon_after):
         def dispose(self):
             seen['disposals'] += 1
             base.dispose(self)
-    stream = LogStream(data, rule, seed)
-    gen = getattr(yaml, api)(stream, Loader=L)
-    yields, outcome, err = [], 'done', ''
-    open_doc = False
+    gc.collect()
+    gc.disable()
     try:
-        for item in gen:
-            delivered = False
-            if api in ('load_all', 'compose_all'):
-                delivered = True
-            elif api == 'parse':
-                delivered = isinstance(item, yaml.DocumentEndEvent)
-            else:
-                if isinstance(item, yaml.DocumentStartToken):
-                    delivered, open_doc = open_doc, True
-                elif isinstance(item, (yaml.DocumentEndToken, yaml.StreamEndToken)):
-                    delivered, open_doc = open_doc, False
-                elif not isinstance(item, yaml.StreamStartToken):
-                    open_doc = True
-            if delivered:
-                yields.append({'k': len(yields) + 1, 'req': stream.pos})
-                if abandon_after is not None and len(yields) >= abandon_after:
+        stream = LogStream(data, rule, seed)
+        sref = weakref.ref(stream)
+        gen = getattr(yaml, api)(stream, Loader=L)
+        yields, outcome, err = [], 'done', ''
+        open_doc = False
+        nitems = 0
+        item = None
+        try:
+            for item in gen:
+                nitems += 1
+                delivered = False
+                if api in ('load_all', 'compose_all'):
+                    delivered = True
+                elif api == 'parse':
+                    delivered = isinstance(item, yaml.DocumentEndEvent)
+                else:
+                    if isinstance(item, yaml.DocumentStartToken):
+                        delivered, open_doc = open_doc, True
+                    elif isinstance(item, (yaml.DocumentEndToken, yaml.StreamEndToken)):
+                        delivered, open_doc = open_doc, False
+                    elif not isinstance(item, yaml.StreamStartToken):
+                        open_doc = True
+                if delivered:
+                    yields.append({'k': len(yields) + 1, 'req': stream.pos})
+                if abandon is not None and ((abandon[0] == 'doc' and delivered and len(yields) >= abandon[1]) or
+                                            (abandon[0] == 'item' and nitems >= abandon[1])):
                     outcome = 'abandoned'
                     break
-    except yaml.YAMLError as e:
-        outcome, err = 'raised', ('reader' if isinstance(e, yaml.reader.ReaderError) else type(e).__name__)
-    except Exception as e:
-        outcome, err = 'exception', type(e).__name__
-    calls_before = stream.calls
-    reads_after = 0
-    released = True
-    if outcome == 'abandoned':
+        except yaml.YAMLError as e:
+            outcome, err = 'raised', ('reader' if isinstance(e, yaml.reader.ReaderError) else type(e).__name__)
+        except Exception as e:
+            outcome, err = 'exception', type(e).__name__
+        item = None
+        calls_before = stream.calls
         gen.close()
         del gen
-        item = None
-        gc.collect()
         reads_after = stream.calls - calls_before
-        released = all(r() is None for r in seen['refs'])
+        block, calls = stream.asked, stream.calls
+        del stream
+        # the effect of release, cycle collector out of the picture
+        alive, held = [], ''
+        for r in seen['refs']:
+            o = r()
+            if o is not None:
+                alive.append('loader')
+                st = getattr(o, 'state', None)            # diagnosis only (internal attribute)
+                held = 'state=%s states=%d' % (getattr(st, '__name__', st), len(getattr(o, 'states', None) or []))
+                del o
+                break
+        if sref() is not None:
+            alive.append('stream')
+    finally:
+        gc.enable()
+    del L
+    gc.collect()
     return {'yields': yields, 'outcome': outcome, 'errclass': err, 'disposals': seen['disposals'], 'readsAfter': reads_after,
-            'released': released, 'block': stream.asked, 'calls': stream.calls}
+            'alive': alive, 'held': held, 'block': block, 'calls': calls}
 
 
 def work(args):
@@ -291,7 +317,9 @@ def work(args):
             for api in apis:
                 plans = [None]
                 if len(ends) >= 1 and rnd.random() < 0.5:
-                    plans.append(rnd.randint(1, len(ends)))
+                    plans.append(('doc', rnd.randint(1, len(ends))))
+                if api in ('scan', 'parse') and rnd.random() < 0.4:        # in the middle of a document
+                    plans.append(('item', rnd.randint(1, 4 + 6 * len(ends))))
                 for ab in plans:
                     o = iterate(yaml, api, be, data, rule, sd, ab)
                     b = {'kind': '-', 'doc': 0, 'at': 0}
@@ -299,9 +327,9 @@ def work(args):
                         b = {'kind': 'reader' if bad[0] == 'reader' else 'other', 'doc': bad[1], 'at': ubad}
                     traces.append({'block': o['block'], 'api': api, 'be': be, 'ends': uends, 'yields': o['yields'],
                                    'outcome': o['outcome'], 'bad': b, 'disposals': o['disposals'], 'readsAfter': o['readsAfter'],
-                                   'released': o['released']})
+                                   'alive': o['alive']})
                     meta.append({'seed': sd, 'be': be, 'api': api, 'form': form, 'rule': list(rule), 'ndocs': len(ends),
-                                 'units': len(data), 'bad': list(bad) if bad else None, 'abandon_after': ab,
+                                 'units': len(data), 'bad': list(bad) if bad else None, 'abandon_after': list(ab) if ab else None, 'held': o['held'],
                                  'errclass': o['errclass'], 'break': brk, 'text_head': text[:120]})
     return traces, meta
 
@@ -368,7 +396,17 @@ def main(tier, replay=None):
             v.violation({'clause': why, 'backend': t['be'], 'api': t['api'], 'form': m['form'],
                          'bad': (m['bad'] or [None])[0]},
                         {'input': m, 'block': t['block'], 'ends': t['ends'][:60], 'yields': t['yields'][:60],
-                         'outcome': t['outcome'], 'at': at, 'disposals': t['disposals'], 'readsAfter': t['readsAfter']})
+                         'outcome': t['outcome'], 'at': at, 'disposals': t['disposals'], 'readsAfter': t['readsAfter'],
+                         'alive': t['alive']})
+    # beyond the statement (errors / complete iterations): what survived is reported, never a verdict
+    unreleased = {}
+    for t, m in zip(traces, meta):
+        if t['alive'] and t['outcome'] != 'abandoned' and m['errclass'] != 'ConstructorError':   # see LazyPipe!Referrers
+            k = '%s/%s/%s' % (t['outcome'], t['be'], m['errclass'] or '-')
+            unreleased[k] = unreleased.get(k, 0) + 1
+    if unreleased:
+        v.note('spec-drift C18/release: loader or stream not freed by reference counting after an iteration that was not '
+               'abandoned (LazyPipe.tla: L_ReleaseOnError): %s' % unreleased)
     nontrivial = sum(1 for t in traces if len(t['ends']) >= 2 and t['ends'][-1] > 3 * t['block'])
     kinds = {}
     for t in traces:
@@ -376,7 +414,7 @@ def main(tier, replay=None):
         kinds[k] = kinds.get(k, 0) + 1
     v.cov = {'states': states, 'transitions': trans, 'exhaustive': True, 'traces_validated_against_impl': len(traces),
              'streams': nstreams * 2, 'observed_block': blocks, 'largest_overshoot_units': worst, 'outcomes': kinds,
-             'negative_controls_violate': controls, 'actions_fired': fired, 'distinct_nontrivial': nontrivial,
+             'negative_controls_violate': controls, 'abandoned_iterations': sum(1 for t in traces if t['outcome'] == 'abandoned'), 'actions_fired': fired, 'distinct_nontrivial': nontrivial,
              'rule': 'non-trivial = at least two documents and more than three blocks of input',
              'samples': [dict(meta[i], yields=traces[i]['yields'][:4], ends=traces[i]['ends'][:4]) for i in range(0, min(len(meta), 400), 137)],
              'configs': {n: c for n, c in dc}, 'phase_seconds': phases}
